@@ -37,6 +37,18 @@ def instances(tier):
     # AT5 zone set-points beyond what the protocol field can carry (10.0 .. 35.0 degC): whatever the client does with such a
     # request, it must not transmit a frame that means a different temperature
     out.append({"gen": 5, "call": "zone_temp", "vary": "beyond_field"})
+    if tier == "thorough":
+        have = {(q["gen"], q["call"], q["vary"]) for q in out}
+        for g in (4, 5):
+            for call in AC_CALLS:
+                if call != "check_updates" and (g, call, "ac_number") not in have:
+                    out.append({"gen": g, "call": call, "vary": "ac_number"})
+            for call in ZONE_CALLS:
+                if (g, call, "zone_number") not in have:
+                    out.append({"gen": g, "call": call, "vary": "zone_number"})
+            # both ability bitmaps free at once (2^12 / 2^13 advertised combinations)
+            out.append({"gen": g, "call": "ac_mode", "vary": "config", "deep": True})
+            out.append({"gen": g, "call": "ac_fan", "vary": "config", "deep": True})
     return out
 
 
@@ -52,8 +64,9 @@ def scenario(ctx, p):
     z = ctx.choice("zone", 16) if vary == "zone_number" else 3
     env["ac"], env["zone"] = a, z
     inst = Installation(g.n)
-    mode_bits = ctx.bits("mode_bits", 5) if (call == "ac_mode" and vary == "config") else 0b11111
-    fan_bits = ctx.bits("fan_bits", 7 if g.n == 4 else 8) if (call == "ac_fan" and vary == "config") else (0x7F if g.n == 4 else 0xFF)
+    deep = bool(p.get("deep"))
+    mode_bits = ctx.bits("mode_bits", 5) if ((call == "ac_mode" or deep) and vary == "config") else 0b11111
+    fan_bits = ctx.bits("fan_bits", 7 if g.n == 4 else 8) if ((call == "ac_fan" or deep) and vary == "config") else (0x7F if g.n == 4 else 0xFF)
     if call == "ac_temp" and vary == "config":
         if g.n == 4:
             lo = ctx.int("min_sp", 0, 62)
